@@ -108,6 +108,68 @@ theorem C07_source_untaint_at_most_n (n : Int) (dry : Bool) (outcomes : List (Bo
       have := ih _ hle
       exact ⟨Int.le_trans hge this.1, this.2⟩
 
+/-- A candidate of the untaint loop is handed back: live, it carries the taint and the removal succeeds; dry, the tracker has it. -/
+def untaintOk (dry : Bool) (e : Bool × Bool × Bool) : Bool := (!dry && e.1 && !e.2.1) || (dry && e.2.2)
+
+/-- **C07 on the source, exact count**: the translated loop of `untaintNewestN` hands back exactly
+    `min(N, count + number of candidates that can be handed back)` — failures and untainted candidates are walked past, the loop
+    stops at `N` — for every list of candidates and outcomes (induction; subsumes `C07_source_untaint_at_most_n`). -/
+theorem C07_source_untaint_exact (n : Int) (dry : Bool) (outcomes : List (Bool × Bool × Bool)) (count : Int) (h : count ≤ n) :
+    runLoop (fun c e => Gen.untaintStep c n dry e.1 e.2.1 e.2.2) count outcomes
+      = min n (count + (outcomes.countP (untaintOk dry) : Nat)) := by
+  induction outcomes generalizing count with
+  | nil => simp [runLoop]; omega
+  | cons e es ih =>
+    have sp := untaintStep_spec count n dry e.1 e.2.1 e.2.2
+    simp only [runLoop]
+    by_cases hs : (Gen.untaintStep count n dry e.1 e.2.1 e.2.2).1 = true
+    · simp only [hs, if_true]
+      have : count ≥ n := sp.1.mp hs
+      omega
+    · have hs' : (Gen.untaintStep count n dry e.1 e.2.1 e.2.2).1 = false := by simpa using hs
+      simp only [hs', Bool.false_eq_true, if_false]
+      have hlt : ¬ count ≥ n := fun hc => by have := sp.1.mpr hc; rw [hs'] at this; cases this
+      have hc := sp.2.2.1 hs'
+      have hle : (Gen.untaintStep count n dry e.1 e.2.1 e.2.2).2.1 ≤ n := by
+        rw [hc]; split <;> omega
+      rw [ih _ hle, hc, List.countP_cons]
+      by_cases hk : untaintOk dry e = true
+      · have hk' : ((!dry && e.1 && !e.2.1) || (dry && e.2.2)) = true := hk
+        simp only [hk', hk, if_true]; omega
+      · have hk' : ((!dry && e.1 && !e.2.1) || (dry && e.2.2)) = false := Bool.eq_false_iff.mpr hk
+        have hk2 : untaintOk dry e = false := Bool.eq_false_iff.mpr hk
+        simp only [hk', hk2, Bool.false_eq_true, if_false]; omega
+
+/-- **C03 / C06 on the source, exact count with failures**: the taint loop taints exactly `min(n, count + number of candidates whose
+    write succeeds)` — a failed write is walked past, not counted (subsumes `C06_source_taint_exact`). -/
+theorem C06_source_taint_exact_failures (n : Int) (dry : Bool) (outcomes : List Bool) (count : Int) (h : count ≤ n) :
+    runLoop (fun c e => Gen.taintStep c n dry e) count outcomes
+      = min n (count + (outcomes.countP (fun e => dry || !e) : Nat)) := by
+  induction outcomes generalizing count with
+  | nil => simp [runLoop]; omega
+  | cons e es ih =>
+    have sp := taintStep_spec count n dry e
+    simp only [runLoop]
+    by_cases hs : (Gen.taintStep count n dry e).1 = true
+    · simp only [hs, if_true]
+      have : count ≥ n := sp.1.mp hs
+      omega
+    · have hs' : (Gen.taintStep count n dry e).1 = false := by simpa using hs
+      simp only [hs', Bool.false_eq_true, if_false]
+      have hlt : ¬ count ≥ n := fun hc => by have := sp.1.mpr hc; rw [hs'] at this; cases this
+      have hc := sp.2.2 hs'
+      have hle : (Gen.taintStep count n dry e).2.1 ≤ n := by
+        rw [hc]; split <;> omega
+      rw [ih _ hle, hc, List.countP_cons]
+      by_cases hk : (dry || !e) = true
+      · simp only [hk, if_true]; omega
+      · have hk2 : (dry || !e) = false := Bool.eq_false_iff.mpr hk
+        simp only [hk2, Bool.false_eq_true, if_false]; omega
+
+/-- Non-vacuity (untaint): live group, candidates [untainted, tainted+removal fails, tainted ok, tainted ok, tainted ok], two wanted. -/
+example : runLoop (fun c e => Gen.untaintStep c 2 false e.1 e.2.1 e.2.2) 0
+    [(false, false, false), (true, true, false), (true, false, false), (true, false, false), (true, false, false)] = 2 := by decide
+
 /-- Non-vacuity: three candidates, the second write fails, two wanted: the loop taints the first and the third and then stops. -/
 example : runLoop (fun c e => Gen.taintStep c 2 false e) 0 [false, true, false, false] = 2 := by decide
 
